@@ -256,7 +256,7 @@ Proof.
     + destruct Hcnd as (_ & Hw & _). congruence.
     + apply Hokcase; [apply Hcnd|reflexivity].
     + destruct Hcnd as (_ & Hw & _). congruence.
-    + apply Hfailcase; [|reflexivity]. destruct Hcnd as (_ & _ & e & _ & ->). eauto.
+    + apply Hfailcase; [|reflexivity]. destruct Hcnd as (_ & e & _ & ->). eauto.
     + apply Hokcase; [apply Hcnd|reflexivity].
   - (* Rem *)
     unfold cstep in Hc. unfold direct in Hd.
@@ -382,7 +382,7 @@ Proof.
       - destruct Hcnd as (_ & _ & He). discriminate.
       - destruct Hcnd as (_ & _ & _ & He). injection He as ->. split; reflexivity.
       - destruct Hcnd as (_ & _ & He). discriminate.
-      - destruct Hcnd as (_ & _ & e & _ & He). discriminate.
+      - destruct Hcnd as (_ & e & _ & He). discriminate.
       - destruct Hcnd as (_ & _ & _ & He). injection He as ->. split; reflexivity. }
     destruct Hm as [Hm ->]. rewrite Hm in F5.
     unfold calls_add in Hex'. rewrite F2, Hh in Hex'. cbn [negb orb] in Hex'. rewrite andb_false_r in Hex'.
